@@ -367,6 +367,7 @@ func VerifC19ParseEval(maxTok, depth int) {
 	md := verifSchema(kind)
 	msg := verifArbitraryMsg(md, kind, depth, "")
 	path, err := verifParse(md)
+	verifObserve("parse_ok", err == nil)
 	if err != nil {
 		verifReach("parse_rejected")
 		verifAssert(path == nil, "a rejected path text yields no path")
@@ -376,6 +377,8 @@ func VerifC19ParseEval(maxTok, depth int) {
 	ref := verifReference(msg, verifTokSeen, verifTokLits)
 	verifAssert(ref.state != vfMalformed, "only token sequences of the path grammar are accepted")
 	vs, err := PathValues(path, msg)
+	verifObserve("ref_state", ref.state)
+	verifObserve("eval_ok", err == nil)
 	if err != nil {
 		verifReach("eval_error")
 		verifAssert(ref.state != vfPresent, "evaluation fails only when the addressed element is absent")
